@@ -131,7 +131,15 @@ func ndel(c *Chain) int {
 
 func runSlashHist(t *testing.T, in []string) string {
 	nv, _ := strconv.Atoi(in[0])
-	c, err := NewChain(ChainCfg{NVals: nv, NAccts: 6})
+	cfg := ChainCfg{NVals: nv, NAccts: 6}
+	if len(in) > 2 { // optional: genesis tokens per validator
+		for _, t := range strings.Split(in[2], ",") {
+			if v, err := strconv.ParseInt(t, 10, 64); err == nil {
+				cfg.ValTokens = append(cfg.ValTokens, v)
+			}
+		}
+	}
+	c, err := NewChain(cfg)
 	if err != nil {
 		return "err:newchain:" + shortLog(err.Error())
 	}
@@ -214,6 +222,19 @@ func runSlashHist(t *testing.T, in []string) string {
 	return strings.Join(h.Out, " ;; ")
 }
 
+// downtime appends the blocks that get validator v slashed for downtime, jailed and unjailed again (signing window 100 blocks, at
+// least half must be signed, jail ten minutes; v must hold less than a third of the power so that blocks are still decided)
+func downtime(add func(string, ...any), v string) {
+	for j := 0; j < 105; j++ {
+		add("blk 1000 abs=%s", v)
+	}
+	add("blk 1000")
+	add("blk 601000")
+	add("sunjail %s", v)
+	add("blk 1000")
+	add("blk 1000")
+}
+
 func genSlashHist(r *Rng, i int, tier string) []string {
 	nv := 3 + r.Intn(2) // the last validator never reports: the chain always keeps a validator
 	var ops []string
@@ -232,6 +253,12 @@ func genSlashHist(r *Rng, i int, tier string) []string {
 			tx("del %s v%d %d", s, r.Intn(nv), odd())
 		}
 		tx("sel %s %s", s, r.PickS("a0", "a0", "v0", "v1"))
+	}
+	// slashed-validator variant (1 in 6): v1 misses more than half of the signing window, is slashed 1 % and jailed by the slashing
+	// module, and is unjailed ten minutes later: from then on its exchange rate (tokens per share) is 0.99 for the old and the new
+	// delegations alike
+	if nv == 4 && r.Chance(1, 2) {
+		downtime(add, "v1")
 	}
 	reps := []string{"a0", "a0", "v0", "v1"}
 	nrep := 0
